@@ -2,7 +2,7 @@
 from .. import sym
 from ..evalfn import SELF
 from ..sym import canon
-from . import c06, core_rules
+from . import c06, tree_rules, core_rules
 from .algo_equiv import check_equiv
 from .common import ALGOS, CORE, G, plain, short
 
@@ -166,3 +166,4 @@ def run(chk):
     chk.floor_count("C20.R3:deferred calls in close/roll", n, 3)
     c06.close_flatten(chk, "C20")
     core_rules.fresh_read_rules(chk, "C20")
+    tree_rules.setup_from_parent_rules(chk, "C20")  # a dynamic child's own unit-risk / maturity / roll tables are the ones its algos read
